@@ -577,11 +577,27 @@ def ui_calls(ctx, b):
         k = strip(b.expr(t['args'][2]))
         kind = k[1].rsplit('::', 1)[1] if k[0] == 'aggr' else render(k)
         groups = set()
-        for x in walk(b.expr(t['args'][1])):
+        from ..facts import alternatives
+        # the definitions of the handed-over match, one by one (a component of a merged row is projected first, so that the
+        # other components of the row - the digits group next to the full-literal group - are not mistaken for it)
+        def visit(x, depth=0):
+            if depth > 60 or not isinstance(x, tuple):
+                return
             if x[0] == 'call' and re.search(r'Captures::<.*>::(name|get)$|Captures::(name|get)$', x[1]) and len(x[2]) > 1:
-                a = strip(x[2][1])
-                if a[0] == 'const':
-                    groups.add(a[2])
+                for a2, _c2 in alternatives(b, x[2][1], 16):
+                    a = strip(a2)
+                    if a[0] == 'const':
+                        groups.add(a[2])
+                visit(x[2][0], depth + 1)          # the group argument itself is not searched for further groups
+                return
+            for ch in x[1:]:
+                if isinstance(ch, tuple):
+                    visit(ch, depth + 1)
+                elif isinstance(ch, list):
+                    for c2 in ch:
+                        visit(c2, depth + 1)
+        for alt, _c in alternatives(b, b.expr(t['args'][1]), 64):
+            visit(alt)
         out.append((kind, groups, t, bid))
     return out
 
